@@ -742,6 +742,10 @@ class unyt_array(np.ndarray):
                         f"Input dtype ({self.dtype}) has a smaller itemsize than the "
                         "smallest floating point representation possible."
                     )
+                if not values.flags.writeable:
+                    # refuse before the buffer is re-typed: np.copyto below would
+                    # fail and leave the integer bytes labelled as floats
+                    raise ValueError("assignment destination is read-only")
                 new_dtype = "f" + str(dsize)
                 large = LARGE_INPUT.get(dsize, 0)
                 if large and np.any(np.abs(values) >= large):
@@ -2609,6 +2613,9 @@ def _float_out_view(out):
     # plain-ndarray view of an ``out=`` array for the ufunc kernel to write
     # into; an integer array is first made a float array of the same item size
     if out.dtype.kind in ("u", "i"):
+        if not out.flags.writeable:
+            # refuse before the buffer is re-typed (see convert_to_units)
+            raise ValueError("output array is read-only")
         new_dtype = "f" + str(out.dtype.itemsize)
         float_values = out.astype(new_dtype)
         out.dtype = new_dtype
